@@ -17,6 +17,8 @@ DEFAULT = dict(
     p_diamond=0.0,    # a stored handle of a task that holds a context across a suspension, awaited by 2-3 sibling tasks, each from
                       # inside a context block of its own and after a different number of suspensions (a DAG: the shared task is
                       # started under one awaiter and continued / completed under another)
+    p_sticky=0.0,     # a context whose pause() fault is PERSISTENT: once its pause() has raised, every later pause() call on it
+                      # (by the scheduler or by the with block's __exit__, e.g. during generator.close()) raises too
     p_vary_bad=0.0,   # params.vary_bad: non-future leaves cycle through 12345, 0, '', False, 0.0, b'', 'abc'      # a yield of a container of stored handles whose very same container object is yielded a second time
 )
 
@@ -112,6 +114,8 @@ class Gen:
         if self.r.random() < c["p_ctx_fault"]:
             k = self.r.choice([1, 1, 2, 3])
             fault = {self.r.choice(["resume", "pause"]): [k, self.ferr()]}
+            if c["p_sticky"] > 0 and "pause" in fault and self.r.random() < c["p_sticky"]:
+                fault["sticky"] = True
         return {"async": [self.ncid, fault]}
 
     def retexpr(self, vals):
@@ -368,7 +372,7 @@ class Gen:
 # ------------------------------------------------------------------ statistics over an AST
 def stats(case):
     s = dict(tasks=0, items=0, yields=0, syncs=0, withs=0, tries=0, raises=0, depth=0, old=0, dicts=0, nested=0,
-             item_faults=0, bad=0, lazy=0, errfut=0, reads=0, nonasync=0, ctx_faults=0, overrides=0, kinds=set(), shared=0)
+             item_faults=0, bad=0, lazy=0, errfut=0, reads=0, nonasync=0, ctx_faults=0, overrides=0, kinds=set(), shared=0, sticky=0)
     uses = {}           # handle -> set of task bodies (by identity) that await it
     cur_body = [None]
 
@@ -435,6 +439,8 @@ def stats(case):
                     s["overrides"] += 1
                 elif c["async"][1] is not None:
                     s["ctx_faults"] += 1
+                    if c["async"][1].get("sticky"):
+                        s["sticky"] += 1
                 block(x["body"], d)
             elif op == "try":
                 s["tries"] += 1
